@@ -1,8 +1,13 @@
 package protocol
 
-import "fmt"
+import (
+	"fmt"
+	"sync"
+)
 
+// Connections is shared by the handlers of all tunnels, connectionsMu guards it
 var Connections map[string]*Monitor
+var connectionsMu sync.Mutex
 
 type Monitor struct {
 	Processor *Processor
@@ -14,6 +19,9 @@ const (
 )
 
 func RegisterTunnel(t *Tunnel, p *Processor) {
+	connectionsMu.Lock()
+	defer connectionsMu.Unlock()
+
 	if Connections == nil {
 		Connections = make(map[string]*Monitor)
 	}
@@ -25,6 +33,9 @@ func RegisterTunnel(t *Tunnel, p *Processor) {
 }
 
 func RemoveTunnel(t *Tunnel) {
+	connectionsMu.Lock()
+	defer connectionsMu.Unlock()
+
 	delete(Connections, t.Id)
 }
 
